@@ -28,6 +28,7 @@ type Graph struct {
 	Flags       []*types.Var            // tracked boolean locals
 	aliases     map[*types.Var]ast.Expr // boolean locals that name a stable condition (see condAlias)
 	assignCount map[*types.Var]int
+	assumedFn   func(Fact) bool // set while a query with Assume runs
 	flagIx      map[*types.Var]int
 
 	switchTag map[ast.Expr]ast.Expr // case expression -> tag expression (nil tag => tagless)
@@ -420,6 +421,14 @@ func (g *Graph) eval(e ast.Expr, v Val) int {
 			}
 		}
 	}
+	if g.assumedFn != nil {
+		if g.assumedFn(Fact{X: e, Pos: true}) {
+			return tvT
+		}
+		if g.assumedFn(Fact{X: e, Pos: false}) {
+			return tvF
+		}
+	}
 	return tvU
 }
 
@@ -561,10 +570,15 @@ func (g *Graph) EdgeFacts(e *GEdge) []Fact {
 	}
 	walk(e.Cond, e.Taken)
 	if defs := g.adjacentDefs(e.From); len(defs) > 0 {
-		// the substituted form is an additional fact: rules that identify the variable keep their fact
+		// the substituted form is an additional fact: rules that identify the variable keep their fact. A substituted
+		// boolean expression is decomposed like a condition written in place (`ok := a && b; if ok` gives a and b).
 		for _, f := range out[:len(out):len(out)] {
 			if x := substIdents(g.Info, f.X, defs); x != f.X {
-				out = append(out, Fact{X: x, Y: f.Y, Pos: f.Pos})
+				before := len(out)
+				walk(x, f.Pos)
+				if len(out) == before+1 && out[before].X == x {
+					out[before].Y = f.Y
+				}
 			}
 		}
 	}
@@ -861,6 +875,38 @@ func (g *Graph) computeAliases() {
 	for v := range addr {
 		assigns[v] += 2
 	}
+	writtenFields := map[*types.Var]bool{}
+	ast.Inspect(g.Body, func(n ast.Node) bool {
+		mark := func(l ast.Expr) {
+			for {
+				switch t := ast.Unparen(l).(type) {
+				case *ast.SelectorExpr:
+					if fv, ok := info.Uses[t.Sel].(*types.Var); ok && fv.IsField() {
+						writtenFields[fv] = true
+					}
+					l = t.X
+					continue
+				case *ast.IndexExpr:
+					l = t.X
+					continue
+				}
+				return
+			}
+		}
+		switch t := n.(type) {
+		case *ast.AssignStmt:
+			for _, l := range t.Lhs {
+				mark(l)
+			}
+		case *ast.IncDecStmt:
+			mark(t.X)
+		case *ast.UnaryExpr:
+			if t.Op == token.AND {
+				mark(t.X)
+			}
+		}
+		return true
+	})
 	for v, e := range defs {
 		if assigns[v] != 1 || addr[v] {
 			continue
@@ -872,9 +918,28 @@ func (g *Graph) computeAliases() {
 			continue // constant: an ordinary flag
 		}
 		stable := true
-		ast.Inspect(e, func(n ast.Node) bool {
+		var visit func(n ast.Node) bool
+		visit = func(n ast.Node) bool {
 			switch t := n.(type) {
-			case *ast.CallExpr, *ast.FuncLit, *ast.IndexExpr, *ast.StarExpr, *ast.SelectorExpr, *ast.TypeAssertExpr, *ast.SliceExpr:
+			case *ast.SelectorExpr:
+				// a field of a stable variable is stable when no statement of the body assigns that field (of any
+				// variable); package-qualified constants/variables are judged by the identifier case below
+				if fv, isF := info.Uses[t.Sel].(*types.Var); isF && fv.IsField() {
+					if writtenFields[fv] {
+						stable = false
+					}
+					if stable {
+						ast.Inspect(t.X, visit) // the base only: the field identifier itself is not a variable use
+					}
+					return false
+				}
+				if _, isPkg := info.Uses[identOfExpr(t.X)].(*types.PkgName); isPkg {
+					if _, isConst := info.Uses[t.Sel].(*types.Const); isConst {
+						return false
+					}
+				}
+				stable = false
+			case *ast.CallExpr, *ast.FuncLit, *ast.IndexExpr, *ast.StarExpr, *ast.TypeAssertExpr, *ast.SliceExpr:
 				stable = false
 			case *ast.UnaryExpr:
 				if t.Op == token.ARROW || t.Op == token.AND {
@@ -900,7 +965,8 @@ func (g *Graph) computeAliases() {
 				}
 			}
 			return stable
-		})
+		}
+		ast.Inspect(e, visit)
 		if stable {
 			g.aliases[v] = e
 		}
@@ -936,6 +1002,7 @@ type Query struct {
 	AvoidNode func(*GNode) bool // nodes that may not be passed (a start node itself is not tested)
 	AvoidEdge func(*GEdge) bool // edges that may not be taken
 	NoFlags   bool              // ignore flag valuations (path-insensitive)
+	Assume    func(Fact) bool   // atoms taken to hold (Fact{x,true}: x holds; Fact{x,false}: x does not) while conditions and flag assignments are evaluated
 }
 
 type state struct {
@@ -946,6 +1013,10 @@ type state struct {
 // Reach returns the set of nodes reachable under q (a node is "reached" when control arrives at it,
 // before AvoidNode is applied: avoided nodes are reported as reached but not traversed).
 func (g *Graph) Reach(q Query) map[*GNode]bool {
+	if q.Assume != nil {
+		g.assumedFn = q.Assume
+		defer func() { g.assumedFn = nil }()
+	}
 	reached := map[*GNode]bool{}
 	seen := map[state]bool{}
 	var work []state
@@ -999,6 +1070,10 @@ func (g *Graph) Reach(q Query) map[*GNode]bool {
 
 // ReachVals is Reach that also reports the flag valuations with which each node is reached (before the node runs).
 func (g *Graph) ReachVals(q Query) map[*GNode]map[Val]bool {
+	if q.Assume != nil {
+		g.assumedFn = q.Assume
+		defer func() { g.assumedFn = nil }()
+	}
 	out := map[*GNode]map[Val]bool{}
 	seen := map[state]bool{}
 	var work []state
@@ -1240,48 +1315,208 @@ func (g *Graph) Infeasible(assumed func(Fact) bool) func(*GEdge) bool {
 			}
 			return assumed(Fact{X: e.Tag, Y: e.Cond, Pos: true})
 		}
-		// lits(x, want): the literals that must ALL hold for x to evaluate to want, when x is a pure conjunction
-		// (want=true) or a pure disjunction (want=false) of atoms; ok=false otherwise.
-		var lits func(x ast.Expr, want bool) ([]Fact, bool)
-		lits = func(x ast.Expr, want bool) ([]Fact, bool) {
+		// three-valued evaluation of the condition under the assumption: an atom is true when it is assumed, false
+		// when its negation is assumed, unknown otherwise; boolean locals that name a condition are expanded
+		defs := g.adjacentDefs(e.From)
+		var eval func(x ast.Expr, depth int) int
+		eval = func(x ast.Expr, depth int) int {
 			x = ast.Unparen(x)
+			if b, ok := g.constBool(x); ok {
+				if b {
+					return tvT
+				}
+				return tvF
+			}
 			switch t := x.(type) {
 			case *ast.UnaryExpr:
 				if t.Op == token.NOT {
-					return lits(t.X, !want)
+					switch eval(t.X, depth) {
+					case tvT:
+						return tvF
+					case tvF:
+						return tvT
+					}
+					return tvU
 				}
 			case *ast.BinaryExpr:
-				if (t.Op == token.LAND && want) || (t.Op == token.LOR && !want) {
-					a, ok1 := lits(t.X, want)
-					b, ok2 := lits(t.Y, want)
-					return append(a, b...), ok1 && ok2
-				}
 				if t.Op == token.LAND || t.Op == token.LOR {
-					return nil, false
+					a, b := eval(t.X, depth), eval(t.Y, depth)
+					if t.Op == token.LAND {
+						if a == tvF || b == tvF {
+							return tvF
+						}
+						if a == tvT && b == tvT {
+							return tvT
+						}
+						return tvU
+					}
+					if a == tvT || b == tvT {
+						return tvT
+					}
+					if a == tvF && b == tvF {
+						return tvF
+					}
+					return tvU
+				}
+			case *ast.Ident:
+				if depth < 4 {
+					if def := g.condAlias(t); def != nil {
+						if v := eval(def, depth+1); v != tvU {
+							return v
+						}
+					} else if o := g.Info.Uses[t]; o != nil {
+						if r, ok := defs[o]; ok {
+							if bt, isB := o.Type().Underlying().(*types.Basic); isB && bt.Kind() == types.Bool {
+								if v := eval(r, depth+1); v != tvU {
+									return v
+								}
+							}
+						}
+					}
 				}
 			}
-			return []Fact{{X: x, Pos: want}}, true
+			if assumed(Fact{X: x, Pos: true}) {
+				return tvT
+			}
+			if assumed(Fact{X: x, Pos: false}) {
+				return tvF
+			}
+			if len(defs) > 0 {
+				if sx := substIdents(g.Info, x, defs); sx != x {
+					if assumed(Fact{X: sx, Pos: true}) {
+						return tvT
+					}
+					if assumed(Fact{X: sx, Pos: false}) {
+						return tvF
+					}
+				}
+			}
+			return tvU
 		}
-		// the outcome requires all of these literals: infeasible when one of them contradicts the assumption
-		if must, ok := lits(e.Cond, e.Taken); ok {
-			for _, a := range must {
-				if assumed(Fact{X: a.X, Pos: !a.Pos}) {
-					return true
-				}
-			}
-			return false
-		}
-		// the outcome is a disjunction of literals (false edge of a conjunction / true edge of a disjunction):
-		// infeasible when every alternative contradicts the assumption
-		if alts, ok := lits(e.Cond, !e.Taken); ok && len(alts) > 0 {
-			for _, a := range alts {
-				// alternative literal: negation of a
-				if !assumed(a) {
-					return false
-				}
-			}
-			return true
+		switch eval(e.Cond, 0) {
+		case tvT:
+			return !e.Taken
+		case tvF:
+			return e.Taken
 		}
 		return false
 	}
+}
+
+// EvalBoolResult interprets a small pure predicate abstractly: starting at the entry of g it follows the edges whose
+// conditions evaluate, under env (boolean locals with given values), to the taken outcome, binds boolean locals that
+// are assigned from evaluable expressions, and returns the value of the first `return <expr>` reached. ok=false when a
+// condition or the returned expression cannot be evaluated from env and constants (calls, other variables), or when
+// the walk exceeds 300 steps. Nothing is executed: it is a three-valued evaluation over the syntax.
+func (g *Graph) EvalBoolResult(env map[types.Object]bool) (result bool, ok bool) {
+	vals := map[types.Object]bool{}
+	for k, v := range env {
+		vals[k] = v
+	}
+	var eval func(e ast.Expr) (bool, bool)
+	eval = func(e ast.Expr) (bool, bool) {
+		e = ast.Unparen(e)
+		if tv, has := g.Info.Types[e]; has && tv.Value != nil && tv.Value.Kind() == constant.Bool {
+			return constant.BoolVal(tv.Value), true
+		}
+		switch t := e.(type) {
+		case *ast.Ident:
+			if o := g.Info.ObjectOf(t); o != nil {
+				if v, has := vals[o]; has {
+					return v, true
+				}
+			}
+		case *ast.UnaryExpr:
+			if t.Op == token.NOT {
+				if v, ok := eval(t.X); ok {
+					return !v, true
+				}
+			}
+		case *ast.BinaryExpr:
+			a, oka := eval(t.X)
+			switch t.Op {
+			case token.LAND:
+				if oka && !a {
+					return false, true
+				}
+				b, okb := eval(t.Y)
+				if okb && !b {
+					return false, true
+				}
+				return a && b, oka && okb
+			case token.LOR:
+				if oka && a {
+					return true, true
+				}
+				b, okb := eval(t.Y)
+				if okb && b {
+					return true, true
+				}
+				return a || b, oka && okb
+			case token.EQL, token.NEQ:
+				b, okb := eval(t.Y)
+				if oka && okb {
+					return (a == b) == (t.Op == token.EQL), true
+				}
+			}
+		}
+		return false, false
+	}
+	n := g.Entry
+	for steps := 0; n != nil && steps < 300; steps++ {
+		switch t := n.Node.(type) {
+		case *ast.ReturnStmt:
+			if len(t.Results) != 1 {
+				return false, false
+			}
+			return eval(t.Results[0])
+		case *ast.AssignStmt:
+			if len(t.Lhs) == len(t.Rhs) {
+				for i, l := range t.Lhs {
+					if id, isId := l.(*ast.Ident); isId {
+						if o := g.Info.ObjectOf(id); o != nil {
+							if _, given := env[o]; given {
+								continue
+							}
+							if v, ok := eval(t.Rhs[i]); ok {
+								vals[o] = v
+							} else {
+								delete(vals, o)
+							}
+						}
+					}
+				}
+			}
+		}
+		if n.Exit {
+			return false, false
+		}
+		var next *GNode
+		switch len(n.Succ) {
+		case 0:
+			return false, false
+		case 1:
+			next = n.Succ[0].To
+		default:
+			for _, e := range n.Succ {
+				if e.Cond == nil || e.Tag != nil {
+					return false, false
+				}
+				if v, ok := eval(e.Cond); ok {
+					if v == e.Taken {
+						next = e.To
+					}
+				} else {
+					return false, false
+				}
+			}
+		}
+		n = next
+	}
+	return false, false
+}
+
+func identOfExpr(e ast.Expr) *ast.Ident {
+	id, _ := ast.Unparen(e).(*ast.Ident)
+	return id
 }
